@@ -260,6 +260,27 @@ theorem tdGuard_of_planTeardown (s : St) (g : GId) (ts : List (Name × WId)) (hw
       exact ⟨hr, hg, (hb.1 r hr hs).1⟩
   · cases hp
 
+/-- on a consistent state `reconcile_placements` finds nothing to do -/
+theorem reconcileCandidates_nil (s : St) (hb : BookInv s) : reconcileCandidates s = [] := by
+  unfold reconcileCandidates
+  rw [List.filter_eq_nil_iff]
+  intro r hr hc
+  simp only [Bool.and_eq_true, decide_eq_true_eq] at hc
+  obtain ⟨⟨_, hrun⟩, hw⟩ := hc
+  cases hg : s.getW r.worker with
+  | none => simp [hg] at hw
+  | some w =>
+    simp only [hg, Bool.and_eq_true, Bool.not_eq_true', List.contains_eq_mem, decide_eq_false_iff_not] at hw
+    have hmem : r.name ∈ s.runningOn w.id := by
+      rw [(getW_some hg).2]
+      exact mem_ron.2 ⟨r, hr, by simp [PRec.runsOn, hrun], rfl⟩
+    exact hw.2 (((hb.2 w (getW_some hg).1).1.mem_iff).2 hmem)
+
+theorem reconcile_noop (s : St) (hb : BookInv s) (b : Bool) : reconcile s b = s := by
+  unfold reconcile
+  rw [reconcileCandidates_nil s hb]
+  cases b <;> rfl
+
 /-! ### plan/commit-adjacent histories -/
 
 /-- results of executing a deploy plan with the given outcomes -/
